@@ -32,6 +32,8 @@ pub struct File {
 
 static FILE: OnceLock<File> = OnceLock::new();
 static STRICT: AtomicBool = AtomicBool::new(false);
+/// exclusion switched off for exactly one finding (while its own witness is replayed)
+static STRICT_FOR: std::sync::Mutex<Option<String>> = std::sync::Mutex::new(None);
 
 pub fn load() -> &'static File {
     FILE.get_or_init(|| {
@@ -50,13 +52,19 @@ pub fn set_strict(on: bool) {
     STRICT.store(on, Ordering::SeqCst);
 }
 
+/// Replaying the witness of finding `id`: only that finding's exclusion is lifted, so that the
+/// witness of one finding is not failed by another listed finding that shares its history.
+pub fn set_strict_for(id: Option<&str>) {
+    *STRICT_FOR.lock().unwrap() = id.map(|s| s.to_string());
+}
+
 pub fn strict() -> bool {
     STRICT.load(Ordering::SeqCst)
 }
 
 /// True when the finding is listed as *known* (not fixed) and exclusions are on.
 pub fn active(id: &str) -> bool {
-    if strict() {
+    if strict() || STRICT_FOR.lock().unwrap().as_deref() == Some(id) {
         return false;
     }
     load()
